@@ -11,6 +11,7 @@ PROPERTY_MODULES.update({
     "C08": "contracts.C08_hypotest",
     "C09": "contracts.C09_upper_limits",
     "C10": "contracts.C10_batching",
+    "C11": "contracts.C11_backend_history",
     "C12": "contracts.C12_config",
     "C13": "contracts.C13_gradients",
     "C14": "contracts.C14_toys",
